@@ -71,7 +71,7 @@ theorem T05_1_locate_nodes (d : Diagram) (s t : Node) :
   unfold Diagram.locate Diagram.addNode
   generalize findLoop s.id t.id d.nodes 0 none none = st
   rcases st with ⟨a, b⟩
-  cases a <;> cases b <;> simp
+  cases a <;> cases b <;> by_cases hl : t.id = s.id <;> simp [hl]
 
 /-! ## T05.2  bookkeeping invariant for every reachable diagram (any sequence of add_node / add_edge,
     including failing edges, repeated edges and re-used node objects) -/
@@ -146,7 +146,8 @@ theorem inv_locate (d : Diagram) (s t : Node) (h : d.Inv) : (d.locate s t).1.Inv
   unfold Diagram.locate
   generalize findLoop s.id t.id d.nodes 0 none none = st
   rcases st with ⟨a, b⟩
-  cases a <;> cases b <;> simp <;> first | exact h | (apply inv_addNode; first | exact h | (apply inv_addNode; exact h))
+  cases a <;> cases b <;> by_cases hl : t.id = s.id <;> simp [hl] <;>
+    first | exact h | (apply inv_addNode; first | exact h | (apply inv_addNode; exact h))
 
 private theorem getD_set {α : Type} (l : List α) (i k : Nat) (v d : α) :
     (l.set i v).getD k d = if i = k ∧ k < l.length then v else l.getD k d := by
